@@ -15,6 +15,7 @@ implementation's output computed from Spec/KafkaWire + Spec/KafkaSchemas (refere
 -/
 import KafkaVerif.Base.Proto
 import KafkaVerif.Model.Codec
+import KafkaVerif.Model.CodecWF
 import KafkaVerif.Model.Resolve
 import KafkaVerif.Model.GoVal
 import KafkaVerif.Gen.Schemas
@@ -118,7 +119,8 @@ def step (line : String) : String :=
                   let model := if encodable c.r.ty v then toHex bytes else "err"
                   -- monitor: the implementation's bytes are the reference encoding of the value under the
                   -- reference schema (size prefix included), or the value cannot be encoded at all
-                  let holds := if encodable c.r.ty v then impl == toHex (frameOf rt Spec.encode) else impl == "err"
+                  -- the theorems of Props/C04 apply to this schema only if it is well-formed (`Ty.wf`, evaluated here)
+                  let holds := c.r.ty.wf && (if encodable c.r.ty v then impl == toHex (frameOf rt Spec.encode) else impl == "err")
                   answer model holds
             | _, _, _ => "bad-args"
           | _ => "bad-args"
